@@ -29,6 +29,7 @@ type Loc struct {
 	HSort string
 	Ref   Term
 	Elem  types.Type
+	RootT types.Type // for heap cells holding a whole struct value (slice/array elements): its type; Path selects inside
 }
 
 type unsupported struct{ msg string }
@@ -79,6 +80,7 @@ type loopInfo struct {
 	st       *State
 	entrySt  *State
 	entryPhi map[*ssa.Phi]Val
+	modSt    *State
 }
 
 func (a *Act) pos(p token.Pos) string { return a.u.E.Pos(p) }
@@ -114,8 +116,9 @@ func (a *Act) load(st *State, ref Term, t types.Type) Term {
 			fail("load of large array value")
 		}
 		v := d.Zero(t)
+		eh := a.elemHeap(arr.Elem())
 		for i := int64(0); i < arr.Len(); i++ {
-			v = store(v, intLit(i), a.load(st, app("elem", ref, intLit(i)), arr.Elem()))
+			v = store(v, intLit(i), sel(st.heap(eh.name, eh.sort), app("elem", ref, intLit(i))))
 		}
 		return v
 	}
@@ -142,8 +145,9 @@ func (a *Act) store(st *State, ref Term, t types.Type, v Term) {
 		if arr.Len() > 8 {
 			fail("store of large array value")
 		}
+		eh := a.elemHeap(arr.Elem())
 		for i := int64(0); i < arr.Len(); i++ {
-			a.store(st, app("elem", ref, intLit(i)), arr.Elem(), sel(v, intLit(i)))
+			st.setHeap(eh.name, eh.sort, store(st.heap(eh.name, eh.sort), app("elem", ref, intLit(i)), sel(v, intLit(i))))
 		}
 		return
 	}
@@ -157,6 +161,15 @@ type leafHeap struct {
 	name, sort string
 	addr       func(ref Term) Term
 }
+
+// elemHeap: slice and array elements are stored as whole values (struct elements as datatype values)
+// in one typed cell heap, addressed by elem(array, index).
+func (a *Act) elemHeap(et types.Type) leafHeap {
+	h, hs := a.u.D.CellHeap(et)
+	return leafHeap{h, hs, func(r Term) Term { return r }}
+}
+
+func (a *Act) elemHeaps(et types.Type) []leafHeap { return []leafHeap{a.elemHeap(et)} }
 
 func (a *Act) leafHeaps(t types.Type) []leafHeap {
 	d := a.u.D
@@ -177,9 +190,10 @@ func (a *Act) leafHeaps(t types.Type) []leafHeap {
 			return
 		}
 		if arr, ok := types.Unalias(t).Underlying().(*types.Array); ok {
+			eh := a.elemHeap(arr.Elem())
 			for i := int64(0); i < arr.Len() && i < 8; i++ {
 				i := i
-				rec(arr.Elem(), func(r Term) Term { return app("elem", addr(r), intLit(i)) })
+				out = append(out, leafHeap{eh.name, eh.sort, func(r Term) Term { return app("elem", addr(r), intLit(i)) }})
 			}
 			return
 		}
@@ -233,7 +247,12 @@ func (a *Act) loadPtr(st *State, p Val, pos token.Pos, what string) Term {
 			v, _ := a.project(base, derefType(p.Loc.Local.Type()), p.Loc.Path)
 			return v
 		}
-		return sel(st.heap(p.Loc.Heap, p.Loc.HSort), p.Loc.Ref)
+		v := sel(st.heap(p.Loc.Heap, p.Loc.HSort), p.Loc.Ref)
+		if p.Loc.RootT != nil {
+			v, _ = a.project(v, p.Loc.RootT, p.Loc.Path)
+		}
+		a.assumeAllocated(st, v, elem)
+		return v
 	}
 	a.checkNonNil(st, p.T, pos, what)
 	v := a.load(st, p.T, elem)
@@ -254,6 +273,9 @@ func (a *Act) storePtr(st *State, p Val, v Term, pos token.Pos, what string) {
 			lt := derefType(p.Loc.Local.Type())
 			st.locals[p.Loc.Local] = a.update(st.locals[p.Loc.Local], lt, p.Loc.Path, v)
 			return
+		}
+		if p.Loc.RootT != nil {
+			v = a.update(sel(st.heap(p.Loc.Heap, p.Loc.HSort), p.Loc.Ref), p.Loc.RootT, p.Loc.Path, v)
 		}
 		st.setHeap(p.Loc.Heap, p.Loc.HSort, store(st.heap(p.Loc.Heap, p.Loc.HSort), p.Loc.Ref, v))
 		return
@@ -371,6 +393,12 @@ func (a *Act) val(v ssa.Value) Val {
 
 func (a *Act) term(v ssa.Value) Term {
 	x := a.val(v)
+	if x.Loc != nil && x.Loc.RootT != nil && len(x.Loc.Path) == 0 {
+		// pointer to a slice element escapes: it is passed on as an opaque reference; what is read through
+		// it later is unconstrained (sound for reads), writes through it are not tracked (listed assumption)
+		a.u.Trusted["assumed: no writes through the escaping element pointer "+v.Name()+" in "+fnName(a.fn)] = true
+		return x.Loc.Ref
+	}
 	if x.Loc != nil {
 		fail("pointer to %s used as a first-class value (%s in %s)", locDesc(x.Loc), v.Name(), a.fn)
 	}
